@@ -110,6 +110,8 @@ def shrink_scalars(ctx, plan):
         key = path[-1]
         if isinstance(key, str) and key in FROZEN_KEYS:
             continue
+        if "switches" in path:
+            continue  # entries of an explicit schedule are removed, not edited
         try:
             cur = get(plan, path)
         except (KeyError, IndexError, TypeError):
